@@ -111,7 +111,25 @@ def p_nested_branch_skips_last_producing(case, rec, exp):
     return False
 
 
+def p_branch_in_breaking_finally(case, rec, exp):
+    """a finally list with a direct break/continue preceded by a statement that contains a nested break/continue;
+    the observation equals the transcription I."""
+    if case.get("kind") != "prog" or not _agrees_I(exp):
+        return False
+    br = lambda s: s["k"] in ("break", "cont")
+    for s in _all_stmts(case.get("prog")):
+        if s["k"] == "try" and s.get("hf"):
+            c = s.get("c") or []
+            for i, x in enumerate(c):
+                if br(x):
+                    if _any([k for y in c[:i] for k in _kids(y)], br):
+                        return True
+                    break
+    return False
+
+
 PREDICATES = {
+    "C08.branch_inside_breaking_finally_is_redirected": p_branch_in_breaking_finally,
     "C08.nested_return_in_finally_clobbers_pending_return": p_nested_return_clobbers,
     "C08.finally_nested_branch_keeps_stale_completion_value": p_finally_nested_branch_value,
     "C08.caught_throw_keeps_stale_completion_value": p_caught_throw_stale_value,
@@ -213,7 +231,7 @@ CFG = {
              "and a finally block, a for-of or a built-in consumer is involved; distinct = by hash of the case"),
     "theorem_names": ["finally_exactly_once", "finally_exactly_once_innermost_first", "finally_overrides",
                       "iterator_closed_once", "completion_value_rules", "uncatchable_runs_nothing_S", "trace_in_syntax",
-                      "finally_throw_not_caught_by_own_catch", "pending_return_value_refuted", "finally_nested_break_value_refuted", "caught_throw_stale_value_refuted", "nested_branch_loses_value_refuted", "uncatchable_runs_nothing", "uncatchable_step_runs_nothing", "leaveTry_leaveFinally_roundtrip"],
+                      "finally_throw_not_caught_by_own_catch", "pending_return_value_refuted", "finally_nested_break_value_refuted", "caught_throw_stale_value_refuted", "nested_branch_loses_value_refuted", "branch_in_breaking_finally_refuted", "uncatchable_runs_nothing", "uncatchable_step_runs_nothing", "leaveTry_leaveFinally_roundtrip"],
     "allowed_axioms": [],
     "trusted_base": [
         "Coq 8.16.1 kernel + vm_compute (no native_compute); theorems closed under the global context (no axioms)",
